@@ -168,6 +168,47 @@ func foreignAliasSecondFile(name string) *spec.Spec {
 	return b.s
 }
 
+// foreignThroughSibling: providers living in a sibling package "svc" hand a
+// value around whose type mentions packages that no file of the main package
+// imports (standard library, or two sibling packages named alike). The main
+// package consumes only svc types; injectors with and without goroutines.
+func foreignThroughSibling(name string, kind int, async bool, variant int) *spec.Spec {
+	b := newBuilder(name)
+	b.s.Dynamic = false
+	b.s.NoForward = true
+	svc := b.ext("svc", "svc", "")
+	raw := []string{"*url.URL", "time.Duration", "map[netip.Addr]*big.Int", ""}[kind]
+	var names []string
+	if kind == 3 {
+		u := b.ext("apps/v1", "v1", "appsv1")
+		o := b.ext("core/v1", "v1", "corev1")
+		pod := b.strct("Pod", o)
+		dep := b.strct("Deployment", u)
+		raw = "map[*" + b.s.Expr(pod, "") + "]*" + b.s.Expr(dep, "")
+		names = []string{"Pod", "Deployment"}
+	}
+	t := b.typ(&spec.Type{Kind: spec.KRaw, Raw: raw, RawNames: names})
+	res := b.ptr(b.strct("Client", svc))
+	other := b.ptr(b.strct("Metrics", svc))
+	app := b.ptr(b.strct("App", ""))
+	p1 := b.fn("NewEndpoint", svc, nil, []int{t}, async, true)
+	p2 := b.fn("NewClient", svc, []int{t}, []int{res}, async, false)
+	p3 := b.fn("NewMetrics", svc, nil, []int{other}, async, false)
+	p4 := b.fn("NewApp", "", []int{res, other}, []int{app}, false, false)
+	// one injector per program: another injector spelling the type in its
+	// signature would register the import and mask a miss in the var block
+	switch variant {
+	case 0:
+		b.inject("InitializeApp", app, p1, p2, p3, p4)
+	case 1:
+		b.inject("InitializeEndpoint", t, p1) // the foreign type as requested type
+	default:
+		b.inject("InitializeClientFromArgument", res, p2) // ... as injector argument
+	}
+	b.s.Features = append(b.s.Features, fmt.Sprintf("foreign-only-through-sibling-%d", kind))
+	return b.s
+}
+
 // corpusSpecs returns the fixed regression declarations that run at every
 // seed for the given property.
 func corpusSpecs(prop string) []*spec.Spec {
@@ -177,10 +218,23 @@ func corpusSpecs(prop string) []*spec.Spec {
 	case "C14":
 		return []*spec.Spec{twinConfigs("k14a", false), twinConfigs("k14b", true), sameNamedPackages("k14c")}
 	case "C04", "C12":
-		return append([]*spec.Spec{twinConfigs("k"+prop[1:]+"a", false), sameNamedPackages("k"+prop[1:]+"c"), foreignAliasSecondFile("k"+prop[1:]+"f")}, keywordSweepSpecs("kw"+prop[1:])...)
+		var fs []*spec.Spec
+		for k := 0; k < 4; k++ {
+			for v := 0; v < 3; v++ {
+				fs = append(fs, foreignThroughSibling(fmt.Sprintf("kf%s%da%d", prop[1:], k, v), k, true, v))
+			}
+			fs = append(fs, foreignThroughSibling(fmt.Sprintf("kf%s%ds", prop[1:], k), k, false, 0))
+		}
+		return append(fs, append([]*spec.Spec{twinConfigs("k"+prop[1:]+"a", false), sameNamedPackages("k"+prop[1:]+"c"), foreignAliasSecondFile("k"+prop[1:]+"f")}, keywordSweepSpecs("kw"+prop[1:])...)...)
 	case "C02", "C01", "C10", "C11":
-		return []*spec.Spec{twinConfigs("k"+prop[1:]+"a", false), sameNamedPackages("k"+prop[1:]+"c"),
-			structValueAndPointer("k"+prop[1:]+"d", false, false), structValueAndPointer("k"+prop[1:]+"e", true, true), foreignAliasSecondFile("k"+prop[1:]+"f")}
+		var fs []*spec.Spec
+		if prop == "C10" || prop == "C11" {
+			for k := 0; k < 4; k++ {
+				fs = append(fs, foreignThroughSibling(fmt.Sprintf("kf%s%da", prop[1:], k), k, true, 0), foreignThroughSibling(fmt.Sprintf("kf%s%db", prop[1:], k), k, true, 2))
+			}
+		}
+		return append(fs, []*spec.Spec{twinConfigs("k"+prop[1:]+"a", false), sameNamedPackages("k"+prop[1:]+"c"),
+			structValueAndPointer("k"+prop[1:]+"d", false, false), structValueAndPointer("k"+prop[1:]+"e", true, true), foreignAliasSecondFile("k"+prop[1:]+"f")}...)
 	}
 	return nil
 }
